@@ -808,7 +808,13 @@ impl HashColumn {
 			(None, Some(value_address)) => {
 				// If it was found in an older index we just insert a new entry. Reindex won't
 				// overwrite it.
-				let sub_index = if index.id == tables.index.id { Some(sub_index) } else { None };
+				let in_current = index.id == tables.index.id;
+				if !in_current {
+					// The entry in the older index points at the slot that was just freed: drop it,
+					// or reindexing would carry it over into the current index.
+					index.write_remove_plan(key, sub_index, log)?;
+				}
+				let sub_index = if in_current { Some(sub_index) } else { None };
 				// Nothing is inserted when the index needs to grow first: hand the address back.
 				match tables.index.write_insert_plan(key, value_address, sub_index, log)? {
 					PlanOutcome::NeedReindex => Ok((PlanOutcome::NeedReindex, Some(value_address))),
